@@ -20,7 +20,9 @@ type Priority = u32;
 fn gen_priority() -> Priority {
     RNG.with(|cell| {
         let mut rng = cell.get();
-        let priority = rng.next_raw() as Priority;
+        // the high half: the low bits of a power-of-two-modulus LCG are weak, and every 2^k-th draw of
+        // them (one treap among 2^k filled in turn) is nearly sorted, which degenerates that treap
+        let priority = (rng.next_raw() >> 32) as Priority;
         cell.set(rng);
         priority
     })
